@@ -54,6 +54,7 @@ package agessh
 //@ func (*RSAIdentity).unwrap(i, block) (fk, err)
 //@   requires block != nil && i.sshKey != nil
 //@   call rsa.DecryptOAEP#1 requires arg1 == rand.Reader && arg2 == i.k && same(arg3, block.Body) && bytes(arg4) == OAEPLABEL   [C05]
+//@   ensures#malformed (block.Type == "ssh-rsa" && len(block.Args) != 1) ==> err != nil && !wraps(err, age.ErrIncorrectIdentity)   [C05 C14 C19]
 //@   ensures#foreign block.Type != "ssh-rsa" ==> err == age.ErrIncorrectIdentity                                  [C01 C04 C05]
 //@   ensures#tag (block.Type == "ssh-rsa" && len(block.Args) == 1 && block.Args[0] != fpof(i.sshKey)) ==> err == age.ErrIncorrectIdentity   [C01 C04]
 //@   ensures#nil err != nil ==> fk == nil                                                                         [C01 C04]
@@ -86,6 +87,7 @@ package agessh
 //@   call hkdf.New#1 requires isfunc(arg0, "crypto/sha256.New") && len(arg1) == 0 && bytes(arg2) == keywire(id(i.sshKey)) && bytes(arg3) == EDLABEL   [C05]
 //@   call hkdf.New#2 requires isfunc(arg0, "crypto/sha256.New") && bytes(arg2) == cat(unb64raw(block.Args[1]), bytes(i.ourPublicKey)) && bytes(arg3) == EDLABEL   [C05]
 //@   call aeadDecrypt#1 requires same(arg1, block.Body)                                                           [C05]
+//@   ensures#malformed (block.Type == "ssh-ed25519" && len(block.Args) != 2) ==> err != nil && !wraps(err, age.ErrIncorrectIdentity)   [C05 C14 C19]
 //@   ensures#foreign block.Type != "ssh-ed25519" ==> err == age.ErrIncorrectIdentity                              [C01 C04 C05]
 //@   ensures#tag (block.Type == "ssh-ed25519" && len(block.Args) == 2 && b64rawok(block.Args[1]) && len(unb64raw(block.Args[1])) == 32 && block.Args[0] != fpof(i.sshKey)) ==> err == age.ErrIncorrectIdentity   [C01 C04]
 //@   ensures#nil err != nil ==> fk == nil                                                                         [C01 C04]
